@@ -10,7 +10,15 @@ use crate::{BootLoaderNameTag, CommandLineTag, EFIMemoryMapTag, ElfSectionsTag, 
 use multiboot2_common::MaybeDynSized;
 use std::vec::Vec;
 
-fn image<T: MaybeDynSized<Header = TagHeader> + ?Sized>(t: &T) -> Vec<u8> {
+/// image of the tag, and: cloning yields an equal tag (same declared size, same bytes up to that size)
+fn image<T: MaybeDynSized<Header = TagHeader, Metadata = usize> + ?Sized>(t: &T) -> Vec<u8> {
+    let c = multiboot2_common::clone_dyn(t);
+    let (a, b) = (image_of(t), image_of(&*c));
+    assert_eq!(a, b, "clone_dyn yields an equal tag");
+    a
+}
+
+fn image_of<T: MaybeDynSized<Header = TagHeader> + ?Sized>(t: &T) -> Vec<u8> {
     let b = t.as_bytes();
     assert_eq!(b.as_ptr() as usize % 8, 0, "tag allocation is 8-aligned");
     assert_eq!(b.len() % 8, 0);
